@@ -105,10 +105,28 @@ SLOW_ASSUME = ("slow hand-off stage (C05): after the event is written nobody rec
                "real time is observed, not modelled (the model's hand-off is taken or cancelled, never timed)")
 
 
+# C07: records that reach the real FIFOs (sshd pipe -> syslog ingester -> processor; audit pipe -> audit-log ingester) in
+# pieces, the writer pausing INSIDE a record for several magnitudes of time (harness/sshd/stall.go); all cases of a stage
+# run concurrently on FIFOs of their own, so a stage lasts about as long as its longest pause.  Quick: up to 1.2 s;
+# thorough: up to 11 s; and, in any tier, up to 31 s as a search once an obligation broke and no failing input has been found.
+def stalled_writer(pid, pauses, per=3):
+    return ["-prop", pid, "-mode", "stall", "-stalls", ",".join(str(d) for d in pauses), "-per", str(per)]
+
+
+STALL_ASSUME = ("stalled-writer stage (C07): a record written into the real FIFO in two or more pieces with a pause of 0.2 / 0.6 / 1.2 s (quick), up to 11 s "
+                "(thorough) or up to 31 s (search after a broken obligation) strictly inside it is processed as the same record handed over directly "
+                "(sshd pipe: events and forwarded logins; audit pipe: one pushed line per record, parsing to the bare record's message); real time is an "
+                "input of the writer only, the oracle waits for the ingester to return after the writer closed its end")
+
+
 def sshd(pid, n_quick=360, n_thorough=6000):
     extra = daemon_extra(pid) if pid == "C07" else []
     search_extra = []
     assume = list(SSHD_ASSUME)
+    if pid == "C07":
+        extra = extra + [("sshd", {}, stalled_writer(pid, [200, 600, 1200, 2500, 5500, 11000], 4), False, stalled_writer(pid, [200, 600, 1200]))]
+        search_extra = [("sshd", {}, stalled_writer(pid, [2500, 5500, 11000, 31000]), False)]
+        assume.append(STALL_ASSUME)
     if pid == "C05":
         extra = [("sshd", {}, slow_handoff(pid, [150, 1500, 6500, 12000, 31000]), False, slow_handoff(pid, [150, 700, 1500]))]
         search_extra = [("sshd", {}, slow_handoff(pid, [1500, 6500, 12000, 31000, 61000]), False)]
